@@ -584,8 +584,8 @@ def compare_model(ap, obs):
 
 # ----------------------------------------------------------------------------- sub-slot dialect (Model/SubSlot.v)
 def encode_sd(ap, obs_end):
-    """flat-integer encoding of a forward project whose effort tasks allocate one resource, without limits,
-    for ocaml/scheddriver.ml ('sd ...').  Efforts, efficiencies and gaps are arbitrary (exact rationals).
+    """flat-integer encoding of a forward project without limits and alternatives for ocaml/scheddriver.ml
+    ('sd ...' when every effort task allocates one resource, 'sdt ...' when there are teams).  Efforts, efficiencies and gaps are arbitrary (exact rationals).
     Raises NotCore outside that dialect."""
     from fractions import Fraction
     G = ap.get("G", 3600)
@@ -612,6 +612,7 @@ def encode_sd(ap, obs_end):
     tnum = {p: i for i, p in enumerate(order)}
     edges = all_edges(ap)
     out.append(len(order))
+    rows, teams = [], False
     for p in order:
         n = tidx[p]
         leaf = "kids" not in n
@@ -625,11 +626,12 @@ def encode_sd(ap, obs_end):
             if tidx[p[:k]].get("prio") is not None:
                 prio = tidx[p[:k]]["prio"]
                 break
-        mile, eff_s, r = 1, 0, 0
+        mile, eff_s, team = 1, 0, []
         if leaf and n.get("effort") is not None:
-            if n.get("alt") or len(n["alloc"]) != 1 or n["alloc"][0] not in rnum:
-                raise NotCore("team / alternative / group allocation")
-            mile, eff_s, r = 0, n["effort"] * 60, rnum[n["alloc"][0]]
+            if n.get("alt") or any(x not in rnum for x in n["alloc"]) or len(set(n["alloc"])) != len(n["alloc"]):
+                raise NotCore("alternative / group allocation")
+            mile, eff_s, team = 0, n["effort"] * 60, [rnum[x] for x in n["alloc"]]
+            teams = teams or len(team) > 1
         deps = []
         for (q, gap, onstart, gaplen) in edges[p]:
             if gaplen:
@@ -648,8 +650,11 @@ def encode_sd(ap, obs_end):
             if s is not None:
                 lb = max(0, s - S)
                 break
-        out += [1 if leaf else 0, len(lvs)] + lvs + [prio, mile, eff_s, 1, r, len(deps)] + [x for d in deps for x in d] + [pin, lb]
-    return "sd " + " ".join(str(x) for x in out), order, [fid(p) for p, _ in rleaf]
+        rows.append(([1 if leaf else 0, len(lvs)] + lvs + [prio, mile, eff_s, 1], team, [len(deps)] + [x for d in deps for x in d] + [pin, lb]))
+    # projects with a team go through Model/SubSlotTeam.v ('sdt': the team as a list), the others through Model/SubSlot.v
+    for head, team, tail in rows:
+        out += head + (([len(team)] + team) if teams else [team[0] if team else 0]) + tail
+    return ("sdt " if teams else "sd ") + " ".join(str(x) for x in out), order, [fid(p) for p, _ in rleaf]
 
 
 def compare_sd(ap, obs):
